@@ -45,6 +45,10 @@ def mk(kinds, marker):
             lines.append("open('u%d.txt')" % i)
         elif k == 'ff':
             lines.append("f%d = 1 \x0c+ 1" % i)
+        elif k == 'same':
+            lines.append("print(zz)")            # the same text wherever it stands: two sections can be identical
+        elif k == 'samesyn':
+            lines.append("q = (")
     return "\n".join(lines) + "\n"
 
 
@@ -72,7 +76,7 @@ def spans(text, pat):
 TOOLS = ('cait', 'verify', 'tifa', 'run')
 
 
-def one_pass(ctx, src, independent, pat, order, ending, case, tag, entry='separate'):
+def one_pass(ctx, src, independent, pat, order, ending, case, tag, entry='separate', stop_in=None):
     orig = src.split("\n")
     sp = spans(src, pat)
     nsec = len(sp) - 1
@@ -117,7 +121,25 @@ def one_pass(ctx, src, independent, pat, order, ending, case, tag, entry='separa
                 elif ok is False:
                     continue          # an instructor script does not analyse or run code that does not parse
                 elif tool == 'tifa':
-                    tifa_analysis()
+                    analysis = tifa_analysis()
+                    # the lines in the analysis handed back (what get_issues() serves) are judged like the attached ones
+                    shown = code.split("\n")
+                    for lab, iss in analysis.issues.items():
+                        for i in iss:
+                            nm = str(i.fields.get('name', ''))
+                            iln = i.location.line if i.location is not None else None
+                            if iln is None:
+                                continue
+                            if nm == 'zz':
+                                allowed = {j + 1 + offset for j, l in enumerate(shown) if l == 'print(zz)'}
+                                if iln not in allowed:
+                                    ctx.fail({'symptom': 'issue line in the returned analysis is not a line of the section '
+                                                         'that was analysed', 'label': lab, 'mode': mode_name, 'where': where},
+                                             case=case, k=k, got=iln, allowed=sorted(allowed))
+                            elif re.fullmatch(r'[aufx]\d+', nm) and iln != int(nm[1:]) + 1:
+                                ctx.fail({'symptom': 'issue line in the returned analysis is not the whole-file line',
+                                          'label': lab, 'mode': mode_name, 'where': where}, case=case, k=k, got=iln,
+                                         want=int(nm[1:]) + 1)
                 else:
                     sb_cmds.run()
             except Exception as e:
@@ -158,6 +180,16 @@ def one_pass(ctx, src, independent, pat, order, ending, case, tag, entry='separa
                 if f.label == 'name_error':
                     m = re.search(r"name '([a-z]\d+)'", str(f.fields.get('exception', '')) + f.message)
                     name = m.group(1) if m else None
+                if str(name) == 'zz':
+                    # identical lines: the reported line must be one of the `print(zz)` lines of the text the tools
+                    # were shown, in whole-file numbering
+                    shown = code.split("\n")
+                    allowed = {i + 1 + offset for i, l in enumerate(shown) if l == 'print(zz)'}
+                    if ln not in allowed:
+                        ctx.fail({'symptom': 'reported line is not a line of the section that was analysed',
+                                  'label': f.label, 'category': f.category, 'mode': mode_name, 'where': where},
+                                 case=case, k=k, got=ln, allowed=sorted(allowed))
+                    continue
                 if not name or not re.fullmatch(r'[aufx]\d+', str(name)):
                     continue
                 want = int(str(name)[1:]) + 1
@@ -172,7 +204,9 @@ def one_pass(ctx, src, independent, pat, order, ending, case, tag, entry='separa
                                       'mode': 'independent' if independent else 'cumulative'},
                                      case=case, k=k, got=int(mline), want=want)
 
-    for k in range(0, nsec + 3):
+    # how far the script walks before it ends: past the end (default), inside the last section, inside the prologue
+    last_k = nsec + 2 if stop_in is None else (nsec if stop_in == 'last section' else 0)
+    for k in range(0, last_k + 1):
         n0 = len(MAIN_REPORT.feedback)
         if k > 0:
             ctx.step('next_section')
@@ -216,7 +250,7 @@ def one_pass(ctx, src, independent, pat, order, ending, case, tag, entry='separa
         tools_and_lines(src, 0, -1, len(MAIN_REPORT.feedback), 'after stop_sections')
 
 
-def make_body(max_lines, orders, second):
+def make_body(max_lines, orders, second, KINDS=KINDS, endings_phase=False):
     def body(ctx):
         L = ctx.choose(max_lines, 'lines') + 1
         kinds = [KINDS[ctx.choose(len(KINDS), 'k%d' % i)] for i in range(L)]
@@ -228,13 +262,16 @@ def make_body(max_lines, orders, second):
         entry = ('separate', 'set_source')[ctx.choose(2, 'entry')] if second else 'separate'
         # (tool-orders phase) the whole file may have been verified before it is separated
         pre_verified = bool(ctx.choose(2, 'verified-before-separating')) if not second else False
+        # ... and the report may have been resolved once already (an instructor script that resolves per part)
+        pre_resolved = bool(ctx.choose(2, 'resolved-before-separating')) if (endings_phase and ending == 'resolve') else False
+        stop_in = (None, 'last section', 'prologue')[ctx.choose(3, 'script-ends-in')] if endings_phase else None
         src = mk(kinds, marker)
         case = {'file': src, 'mode': 'independent' if independent else 'cumulative', 'pattern': pname,
                 'order': order, 'ending': ending, 'second_pass': again, 'entry': entry}
         canon = repr(case)
         ctx.observe(canon)
         ctx.set_sample(case)
-        if 'marker' in kinds and any(k in ('name', 'syntax') for k in kinds[kinds.index('marker'):]):
+        if 'marker' in kinds and any(k in ('name', 'syntax', 'same', 'samesyn') for k in kinds[kinds.index('marker'):]):
             ctx.mark_nontrivial(canon)
         cmds.clear_report()
         if entry == 'separate':
@@ -242,7 +279,12 @@ def make_body(max_lines, orders, second):
             if pre_verified:
                 case['verified_before_separating'] = True
                 verify()
-        one_pass(ctx, src, independent, pat, order, ending, case, 'first', entry)
+            if pre_resolved:
+                case['resolved_before_separating'] = True
+                simple.resolve()
+        if stop_in:
+            case['script_ends_in'] = stop_in
+        one_pass(ctx, src, independent, pat, order, ending, case, 'first', entry, stop_in)
         if again and ending == 'stop' and not ctx.fails:
             mode2 = independent if again == 1 else not independent
             one_pass(ctx, src, mode2, pat, order, 'stop', case, 'second')
@@ -260,7 +302,12 @@ def phases(tier):
         orders = [TOOLS]
         return [Phase('sections', make_body(4, orders, True), setup=_setup, chunk=300,
                       describe='all files of <=4 lines x pattern x mode x ending x second pass'),
-                Phase('tool-orders', make_body(3, [o for o in itertools.permutations(TOOLS) if o.index('cait') < 2], False),
+                Phase('identical-sections', make_body(5, [TOOLS], True, ['same', 'marker', 'samesyn', 'clean']), setup=_setup, chunk=300,
+                      describe='files of <=5 lines whose sections can be textually identical (same failing line in each)'),
+                Phase('endings', make_body(3, [TOOLS], False, ['clean', 'name', 'marker'], endings_phase=True), setup=_setup, chunk=300,
+                      describe='files of <=3 lines; the script ends (stop/resolve) past the end, inside the last section or in '
+                               'the prologue; the report may have been verified and resolved once before it was separated'),
+                Phase('tool-orders', make_body(3, [o for o in itertools.permutations(TOOLS) if o.index('cait') == 0 or o[:2] == ('verify', 'cait')], False),
                       setup=_setup, chunk=300,
                       describe='all files of <=3 lines x every order of cait/verify/tifa/run with cait first or second '
                                '(tools on text that was not verified)')]
